@@ -105,7 +105,29 @@ SLICE_JOB_RULE = ('episodes = scenario programs (client goroutines issuing API c
                   'replayed on the extracted model (traces_validated_against_impl = job blocks replayed); the property\'s monitor is evaluated '
                   'on every history; distinct_nontrivial = distinct schedule hashes among episodes that submitted at least one job')
 
+SLICE_DISP_RULE = ('episodes = scenario programs run under the controlled scheduler on the instrumented library (see C01); for every job of an in-memory queue the whole log is '
+                   'projected onto the events of coq/SliceDisp.v — that job followed exactly, all other jobs / reservations through counters, every load and store of the worker status word and of '
+                   'curProcessing, every Len() of the job\'s queue, the event loop\'s guard values at each reservation — and replayed on the extracted model (traces_validated_against_impl = blocks replayed); '
+                   'the property\'s monitor is evaluated on every history; distinct_nontrivial = distinct schedule hashes among episodes that submitted at least one job')
+
 CONC = {
+    'C02': dict(module='Properties.C02', file='Properties/C02.v', slices=['disp'],
+                families=['saturate', 'lifecycle', 'burst', 'pool', 'multiq'],
+                quick_episodes=250, thorough_episodes=3000,
+                rule=SLICE_DISP_RULE, trusted_base=TB_CONC,
+                assumptions=['one event loop at a time increments curProcessing: the precondition of the reservation step (nobody else incremented since the guard loaded curProcessing) is validated on every replayed trace, not proved from the goroutine-creation structure',
+                             'n < 1 means runtime.NumCPU() (config.go withSafeConcurrency; covered by the lifecycle model C14_tunepool_sets_concurrency)']),
+    'C06': dict(module='Properties.C06', file='Properties/C06.v', slices=['disp'],
+                families=['burst', 'lifecycle', 'cancel', 'saturate', 'pool', 'persist'],
+                quick_episodes=250, thorough_episodes=3000,
+                rule=SLICE_DISP_RULE, trusted_base=TB_CONC,
+                assumptions=['"returns once its condition holds" (no missed wake-up) is a progress statement: decided by the exact-quiescence monitor (a barrier caller parked at rest is a violation) and C03',
+                             'a bound queue\'s Len() is never negative and counts every element in it (C17_fifo_len_exact; priority queue: slice length under the lock; adapters: contract)']),
+    'C09': dict(module='Properties.C09', file='Properties/C09.v', slices=['disp'],
+                families=['lifecycle', 'lifeseq', 'pool', 'cancel'],
+                quick_episodes=350, thorough_episodes=4000,
+                rule=SLICE_DISP_RULE, trusted_base=TB_CONC,
+                assumptions=['"all processed, in queue order, after Resume / Restart" combines C03 (progress) and C04 (order) with C09_status_store_keeps_queues']),
     'C01': dict(module='Properties.C01', file='Properties/C01.v', slices=['job'],
                 families=['burst', 'lifecycle', 'cancel', 'batch', 'saturate', 'persist', 'recover', 'dist', 'multiq', 'pool', 'order'],
                 quick_episodes=150, thorough_episodes=2000, crash_props=['C03'],
